@@ -655,6 +655,7 @@ func main() {
 		{"messageSrc", []string{"MessageSrc.lean"}, genMessageSrc},
 		{"factoryOpts", []string{"FactoryOpts.lean"}, genFactoryOpts},
 		{"stdoutSrc", []string{"StdoutSrc.lean"}, genStdoutSrc},
+		{"timeSrc", []string{"TimeSrc.lean"}, genTimeSrc},
 	}
 	status := map[string]interface{}{}
 	failed := 0
